@@ -37,6 +37,19 @@ const (
 	Or
 )
 
+// parseSQLStatement calls the SQL parser and turns a panic of the parser (it has some on malformed
+// input, e.g. the comment "/*!*/") into a parse error: the request is rejected instead of taking the
+// server process down.
+func parseSQLStatement(exp string) (stmt sqlparser.Statement, err error) {
+	defer func() {
+		if r := recover(); r != nil {
+			stmt = nil
+			err = fmt.Errorf("sql parser failed on this statement: %v", r)
+		}
+	}()
+	return sqlparser.Parse(exp)
+}
+
 func ConvertToASTNodeSQL(exp string, qid uint64) (*structs.ASTNode, *structs.QueryAggregators, []string, error) {
 	exp = formatStringForSQL(exp)
 	aggNode := structs.InitDefaultQueryAggregations()
@@ -48,7 +61,7 @@ func ConvertToASTNodeSQL(exp string, qid uint64) (*structs.ASTNode, *structs.Que
 		return nil, nil, nil, err
 	}
 
-	stmt, err := sqlparser.Parse(exp)
+	stmt, err := parseSQLStatement(exp)
 	if err != nil {
 		log.Errorf("qid=%v, ConvertToASTNodeSQL: sql parser failed! %+v", qid, err)
 		return nil, nil, columsArray, err
